@@ -1713,7 +1713,10 @@ impl OutstationSession {
             let _ = cursor.skip(ResponseHeader::LENGTH);
 
             // determine if we have a matching SELECT
-            let status = match self.state.select {
+            //
+            // just like SELECT and DIRECT_OPERATE, the echoed objects may not fit
+            // in the solicited transmit buffer, this is not a reason to panic
+            let status: Result<CommandStatus, scursor::WriteError> = match self.state.select {
                 Some(s) => {
                     match s.match_operate(
                         self.config.select_timeout,
@@ -1721,25 +1724,22 @@ impl OutstationSession {
                         frame_id,
                         controls.hash(),
                     ) {
-                        Err(status) => {
-                            controls.respond_with_status(&mut cursor, status).unwrap();
-                            status
-                        }
+                        Err(status) => controls
+                            .respond_with_status(&mut cursor, status)
+                            .map(|_| status),
                         Ok(()) => {
                             let max_controls_per_request = self.config.max_controls_per_request;
                             ControlTransaction::execute(
                                 self.control_handler.borrow_mut(),
                                 database,
                                 |tx, db| {
-                                    controls
-                                        .operate_with_response(
-                                            &mut cursor,
-                                            OperateType::SelectBeforeOperate,
-                                            tx,
-                                            db,
-                                            max_controls_per_request,
-                                        )
-                                        .unwrap()
+                                    controls.operate_with_response(
+                                        &mut cursor,
+                                        OperateType::SelectBeforeOperate,
+                                        tx,
+                                        db,
+                                        max_controls_per_request,
+                                    )
                                 },
                             )
                             .await
@@ -1748,8 +1748,9 @@ impl OutstationSession {
                 }
                 None => {
                     let status = CommandStatus::NoSelect;
-                    controls.respond_with_status(&mut cursor, status).unwrap();
-                    status
+                    controls
+                        .respond_with_status(&mut cursor, status)
+                        .map(|_| status)
                 }
             };
 
@@ -1759,7 +1760,7 @@ impl OutstationSession {
         // Calculate IIN and return it
         let mut iin = Iin::default();
 
-        if status == CommandStatus::NotSupported {
+        if let Ok(CommandStatus::NotSupported) = status {
             iin |= Iin2::PARAMETER_ERROR;
         }
 
